@@ -77,6 +77,10 @@ pub fn fixed_point(x: &[u8], a: Fmt, b: Fmt, m1: &Mode, m2: &Mode, has_f32: bool
                 }
             }
         }
+        if b == Fmt::Json && o2.verdict.is_ok() && has_integer_beyond_64_bits(&o1.out) && crate::known::listed("C06", "C06-json-integer-beyond-64-bits-not-fixed-point") {
+            acc.known("C06-json-integer-beyond-64-bits-not-fixed-point", || format!("{}->json: [{}] vs [{}]", a.name(), preview(&o1.out, 60), preview(&o2.out, 60)));
+            return true;
+        }
         acc.violation(Violation {
             sig: format!("fixed point {}->{}->{}: {}", a.name(), b.name(), b.name(), if o2.verdict.is_ok() { "bytes differ".to_string() } else { crate::c02_mask(&ev::truncate(o2.verdict.text(), 60)) }),
             case: case_json(x, a, b, m1, m2, if detect_second { "i-detected" } else { "i" }),
@@ -85,6 +89,54 @@ pub fn fixed_point(x: &[u8], a: Fmt, b: Fmt, m1: &Mode, m2: &Mode, has_f32: bool
         });
     }
     true
+}
+
+/// Does this JSON text contain an integer literal (no fraction, no exponent, outside strings) whose value
+/// lies outside [-2^63, 2^64-1]?
+fn has_integer_beyond_64_bits(json: &[u8]) -> bool {
+    let mut i = 0;
+    let mut in_str = false;
+    while i < json.len() {
+        let c = json[i];
+        if in_str {
+            if c == b'\\' {
+                i += 1;
+            } else if c == b'"' {
+                in_str = false;
+            }
+            i += 1;
+            continue;
+        }
+        if c == b'"' {
+            in_str = true;
+            i += 1;
+            continue;
+        }
+        if c == b'-' || c.is_ascii_digit() {
+            let start = i;
+            i += 1;
+            while i < json.len() && json[i].is_ascii_digit() {
+                i += 1;
+            }
+            let is_int = !(i < json.len() && matches!(json[i], b'.' | b'e' | b'E'));
+            if is_int {
+                if let Ok(t) = std::str::from_utf8(&json[start..i]) {
+                    match t.parse::<i128>() {
+                        Ok(v) if v < i64::MIN as i128 || v > u64::MAX as i128 => return true,
+                        Err(_) if t.len() > 20 => return true,
+                        _ => {}
+                    }
+                }
+            } else {
+                while i < json.len() && matches!(json[i], b'.' | b'e' | b'E' | b'+' | b'-' | b'0'..=b'9') {
+                    i += 1;
+                }
+            }
+            continue;
+        }
+        i += 1;
+    }
+    false
 }
 
 /// Clause (ii): round trip for common-model documents.
@@ -242,7 +294,40 @@ pub fn run(ctx: &Ctx) -> i32 {
             }
         }
     });
-    let rule = format!("{} generated common-model documents x 16 ordered pairs (A,B) x both clauses, with slice/reader chosen independently at each hop and conventional or hostile spelling of the input; plus per document one extension document (binary, f32, non-finite floats, non-string keys) from MessagePack and YAML to every B for clause (i), and TOML date-time documents; one second hop in four is left to detection, and then repeated on a translator that has just translated a detected input of another format (the bytes must be those of a fresh translator); documents xt cannot translate to B are skipped for clause (i) as the property says; distinct non-trivial = distinct documents with a hostile-class scalar or depth >= 3", n);
+    // every hand-written seed input (rare syntax of each format: directives, tags, anchors, merge keys, dotted keys,
+    // inline tables, date-times, escapes, ext types, ...): fixed point for every B it translates to, and the round
+    // trip with DIFFERENT supply modes at the two hops wherever all three translations succeed
+    let mut acc = acc;
+    let seeds = crate::corpus::seeds();
+    let seed_acc = crate::par::run(seeds.len(), 4, |i, acc| {
+        let Some(a) = seeds[i].fmt else { return };
+        let x = &seeds[i].bytes;
+        // (streams without a document, and the toml crate's private date-time key, are the subject of recorded C02 findings)
+        if x.is_empty() || read_stream(a, x).map(|d| d.is_empty()).unwrap_or(true) || x.windows(24).any(|w| w == b"$__toml_private_datetime") {
+            return;
+        }
+        acc.count("seed_inputs");
+        for b in ALL {
+            for (m1, m2) in [(Mode::Slice, Mode::Reader(Sched::All)), (Mode::Reader(Sched::Fixed(7)), Mode::Slice)] {
+                fixed_point(x, a, b, &m1, &m2, true, acc);
+                let direct = run_mode(x, &m1, Some(a), a);
+                let there = run_mode(x, &m2, Some(a), b);
+                if !direct.verdict.is_ok() || !there.verdict.is_ok() || !run_mode(&there.out, &m1, Some(b), a).verdict.is_ok() {
+                    continue;
+                }
+                // the round trip only where B holds everything A's own rendering holds: judged by comparing with the
+                // same-mode round trip (a difference between the two is a difference between supply modes)
+                let there_same = run_mode(x, &m1, Some(a), b);
+                if there_same.verdict.is_ok() && there_same.out != there.out {
+                    acc.violation(Violation { sig: format!("seed {}->{}: the translation depends on the supply mode", a.name(), b.name()), case: case_json(x, a, b, &m1, &m2, "seed"), observed: format!("{}: [{}]; {}: [{}]", m1.describe(), preview(&there_same.out, 120), m2.describe(), preview(&there.out, 120)), expected: "the same bytes".into() });
+                    return;
+                }
+                acc.count("seed_round_trips_compared_across_supply_modes");
+            }
+        }
+    });
+    acc.merge(seed_acc);
+    let rule = format!("{} generated common-model documents x 16 ordered pairs (A,B) x both clauses, with slice/reader chosen independently at each hop and conventional or hostile spelling of the input; plus per document one extension document (binary, f32, non-finite floats, non-string keys) from MessagePack and YAML to every B for clause (i), and TOML date-time documents; every hand-written seed input x every B (fixed point; A->B under two different supply modes must give the same bytes); one second hop in four is left to detection, and then repeated on a translator that has just translated a detected input of another format (the bytes must be those of a fresh translator); documents xt cannot translate to B are skipped for clause (i) as the property says; distinct non-trivial = distinct documents with a hostile-class scalar or depth >= 3", n);
     ev::finish(
         Finish { ctx, level: "exploration", rule, assumptions: vec!["no reference implementation: xt is compared with itself".into()], extra: serde_json::Map::new(), exhaustive: false, min_distinct: 500, must_reach: vec![("fixed_point_second_hop_on_a_warmed_up_translator".into(), 1000), ("heavy_documents".into(), 10), ("extension_documents_translatable".into(), 100), ("toml_datetime_documents".into(), 10)] },
         acc,
